@@ -13,8 +13,10 @@ ares_conn_t *ares_fetch_connection(const ares_channel_t *channel, ares_server_t 
 ares_status_t ares_conn_query_write(ares_conn_t *conn, ares_query_t *query, const ares_timeval_t *now) { __CPROVER_assert(conn == &g_conn, "C10: the query is written to the fetched/opened connection"); return g_write_status; }
 size_t ares_calc_query_timeout(const ares_query_t *query, const ares_server_t *server, const ares_timeval_t *now) { __CPROVER_assert(server == g_fetch_server, "C06: the timeout is computed for the chosen server"); return g_timeplus; }
 void end_query(ares_channel_t *channel, ares_server_t *server, ares_query_t *query, ares_status_t status, const ares_dns_record_t *dnsrec) { g_ended++; g_end_status = status; }
-ares_status_t ares_requeue_query(ares_query_t *query, const ares_timeval_t *now, ares_status_t status, ares_bool_t inc, const ares_dns_record_t *dnsrec, ares_array_t **requeue) { __CPROVER_assert(requeue == NULL, "direct requeue"); g_requeued++; g_rq_status = status; g_rq_inc = inc; return ARES_SUCCESS; }
+ares_status_t ares_requeue_query(ares_query_t *query, const ares_timeval_t *now, ares_status_t status, ares_bool_t inc, const ares_dns_record_t *dnsrec, ares_array_t **requeue) { __CPROVER_assert(requeue == NULL, "direct requeue"); __CPROVER_assert(!g_query_released, "C01: the query being sent is not used after a completion callback could cancel and release it (a sibling completed while its connection was closed)"); g_requeued++; g_rq_status = status; g_rq_inc = inc; return ARES_SUCCESS; }
 void server_increment_failures(ares_server_t *server, ares_bool_t used_tcp) { g_incfail++; g_incfail_at = ++g_order; }
 void ares_probe_failed_server(ares_channel_t *channel, const ares_server_t *server, const ares_query_t *query) { g_probed++; }
-void handle_conn_error(ares_conn_t *conn, ares_bool_t critical_failure, ares_status_t failure_status) { __CPROVER_assert(conn == &g_conn, "C10: the failing connection is the one written to"); g_connerr++; }
+void handle_conn_error(ares_conn_t *conn, ares_bool_t critical_failure, ares_status_t failure_status) { __CPROVER_assert(conn == &g_conn, "C10: the failing connection is the one written to"); g_connerr++; if (g_cb_may_cancel) g_query_released = 1; }
+/* a released query is in no index */
+void *ares_htable_szvp_get_direct(const ares_htable_szvp_t *h, size_t key) { return g_query_released ? NULL : (void *)g_sending; }
 void timeadd(ares_timeval_t *now, size_t millisecs) { __CPROVER_assert(millisecs == g_timeplus, "C07: the deadline uses the computed timeout"); g_timeadd++; }
